@@ -116,10 +116,11 @@ def runOp (args impl : List String) : Option (String × String) := do
           (arg "mode" "constant" = "constant" ∨ arg "mode" "constant" = "users") ∧
           n "ret" > n "laststart" + an "timeout" "3000" + 1500 + max 0 (n "stall") then
         "FAIL wait-for-in-flight-iterations-not-bounded-after-the-iteration-limit"
-      -- (wall-clock bound: widened by the longest time the harness process itself went unscheduled during the run)
+      -- (wall-clock bound: widened by the longest time the harness process itself went unscheduled during the run; the bound on the
+      -- return below also allows 0.1 ms per user for building and dismantling a pool of tens of thousands of users)
       else if ¬setupFailed ∧ n "laststart" > stopMs + 150 + max 0 (n "stall") then "FAIL iteration-requested-after-triggering-should-have-stopped"
       else if ¬setupFailed ∧ maxit = 0 ∧ n "ret" < stopMs - 2 then "FAIL run-returned-before-the-earliest-stop-condition"
-      else if ¬setupFailed ∧ plain ∧ maxBody ≤ 250 ∧ n "ret" > stopMs + maxBody + an "cleanup" "0" + 1000 then "FAIL run-did-not-return-once-triggering-stopped-and-iterations-finished"
+      else if ¬setupFailed ∧ plain ∧ maxBody ≤ 250 ∧ n "ret" > stopMs + maxBody + an "cleanup" "0" + 1000 + (max fileMaxUsers conc) / 10 then "FAIL run-did-not-return-once-triggering-stopped-and-iterations-finished"
       else if plain ∧ n "inflight" > 0 ∧ n "ret" < stopMs + an "timeout" "3000" - 60 ∧ maxit = 0 then "FAIL gave-up-on-iterations-before-the-completion-timeout"
       -- `retmin` is where the case expects the return when no tick is lost; a stalled process loses ticks, so the bound that
       -- is enforced is the earlier of it and the end of the body of the iteration that really started last
